@@ -62,7 +62,10 @@ class GSock(object):
     def send(self, data):
         self.log.append('sock.send')
         if not self.established or self.closed:
-            raise BrokenPipeError(32, 'Broken pipe')
+            # the assumed contract of the socket layer is "raises OSError": the representative must be an instance of the BASE
+            # class (EHOSTUNREACH maps to no subclass), so that an `except BrokenPipeError / ConnectionError` that is too
+            # narrow does not hide the path (seeded change C11-r8)
+            raise OSError(113, 'No route to host')
 
 
 class GFile(object):
@@ -241,12 +244,21 @@ class Lifecycle(Unit):
             rp = replay_typestates()
             return rp if rp['confirmed'] else replay_live()
         rp = replay_lifecycle(label)
-        return rp if rp['confirmed'] else replay_peer_gone()
+        if not rp['confirmed']:
+            rp = replay_peer_gone()
+        if not rp['confirmed'] and label.startswith('disconnect'):
+            from . import c12
+            rp = c12.replay_flush()        # incl. socket.shutdown raising ENOTCONN: the socket must be closed all the same
+        if not rp['confirmed'] and label.startswith('disconnect'):
+            rp = replay_flush_send_fails()
+        return rp
 
     def bounded(self, rng, tier):
         live = replay_live()
         if not live['confirmed']:
             live = replay_peer_gone()
+        if not live['confirmed']:
+            live = replay_flush_send_fails()
         if live['confirmed']:
             return dict(name='C16.live', evaluations=1, failures=[dict(call=live['call'], observed=live['observed'],
                                                                        witness='live-lifecycle')], bound='one live scenario')
@@ -450,6 +462,45 @@ def replay_peer_gone():
     return dict(confirmed=bad is not None,
                 call='server sends one packet and resets the connection; a listener queues two packets and calls disconnect()',
                 observed=bad or 'conforms')
+
+
+def replay_flush_send_fails():
+    """disconnect() with one real packet queued on a real Connection whose socket fails on send with each kind of OSError the
+    socket layer produces (base class, timeout, connection errors): never raises, the socket is closed and released."""
+    import socket
+    from minecraft.networking.packets import serverbound
+    kinds = [OSError(113, 'No route to host'), socket.timeout('timed out'), OSError(110, 'Connection timed out'),
+             BrokenPipeError(32, 'Broken pipe'), ConnectionResetError(104, 'Connection reset by peer')]
+    for exc in kinds:
+        log = []
+
+        class Sock(object):
+            def send(self, data):
+                log.append('send')
+                raise exc
+
+            def shutdown(self, how):
+                log.append('shutdown')
+                raise OSError(107, 'Transport endpoint is not connected')
+
+            def close(self):
+                log.append('close')
+        c = Connection('127.0.0.1', 1, username='u', allowed_versions={757})
+        c.context.protocol_version = 757
+        c._outgoing_packet_queue = deque()
+        c.socket, c.file_object, c.connected = Sock(), GFile(log), True
+        p = serverbound.play.ChatPacket()
+        p.message = 'queued'
+        c.write_packet(p)
+        try:
+            c.disconnect()
+            res = None
+        except Exception as e:      # noqa
+            res = e
+        if res is not None or 'close' not in log or c.socket is not None:
+            return dict(confirmed=True, call='disconnect() with one packet queued; socket.send raises %r' % (exc,),
+                        observed='disconnect raised %r; events %r; socket released: %r' % (res, log, c.socket is None))
+    return dict(confirmed=False, call='disconnect() with a queued packet over 5 kinds of send failure', observed='conforms')
 
 
 def replay_stale_queue():
